@@ -259,6 +259,7 @@ package proxy
 //@   ensures [C09,C05] err != nil ==> upfails > old(upfails) || sferrs > old(sferrs)
 //@   ensures [C05] err == nil && fetched.Type == 1 ==> !old(allocated(fetched.Direct.Response))
 //@   ensures [C05,C01] err == nil && fetched.Type == 0 && fetched.Cached.Coalesced ==> !old(allocated(fetched.Cached.Entry))
+//@   ensures [C05,C01] err == nil && fetched.Type == 0 && fetched.Cached.Coalesced ==> closedh(fetched.Cached.Entry.Data) == 0      // and its handle is open
 //@   ensures upfails >= old(upfails) && upcalls >= old(upcalls)
 //@   ensures sferrs >= old(sferrs)
 //@   ensures specReqOK(req) && req.ctx == old(req.ctx) && req.Body == old(req.Body)
